@@ -144,6 +144,8 @@ class Ctx:
         e = dict(os.environ)
         e.update(env or {})
         p = subprocess.run(cmd, cwd=self.scratch, capture_output=True, text=True, timeout=timeout, env=e)
+        if p.returncode == 3:
+            return p.stdout   # watchdog: hang recorded in the result file
         if p.returncode != 0:
             raise Inconclusive("harness %s failed (rc=%d):\n%s" % (argv[0], p.returncode, (p.stderr or p.stdout)[-3000:]))
         return p.stdout
